@@ -378,6 +378,23 @@ def r4_compositions(idx, r):
             r.violate(key + ":negative", f, f"negative default mass fraction(s): {neg}")
     if n_fold < 30:
         raise AnalysisError(f"only {n_fold} material compositions folded")
+    # a material that has a density correlation of its own also needs a composition: without one its mass fractions are
+    # empty (sum 0) and every component made of it has no nuclides at all
+    NO_COMPOSITION_OK = {
+        "Material": "abstract base", "Fluid": "abstract base", "SimpleSolid": "abstract base", "FuelMaterial": "abstract base",
+        "Custom": "composition comes from the user's custom isotopics", "Void": "nothing there", "_Mixture": "composed at run time from its parts",
+    }
+    for c in sorted([mat] + idx.subclasses(mat), key=lambda c: c.fq):
+        if not c.module.name.startswith("armi.materials.") or c.name in NO_COMPOSITION_OK:
+            continue
+        if not any(m in c.methods for m in ("pseudoDensity", "density")):
+            continue
+        f = c.resolve("setDefaultMassFracs")
+        body = [s_ for s_ in (f.node.body if f is not None else []) if not (isinstance(s_, ast.Expr) and isinstance(s_.value, ast.Constant))]
+        trivial = f is None or not body or all(isinstance(s_, ast.Pass) for s_ in body)
+        r.require(not trivial, f"{c.name}:has-a-composition", c.methods.get("pseudoDensity") or c.methods.get("density"),
+                  msg=f"{c.name} defines a density but no default composition (setDefaultMassFracs resolves to the empty one of {f.cls.name if f is not None and f.cls else 'nothing'}): "
+                      "its mass fractions are empty instead of summing to one")
 
 
 def r5_property_total(idx, r):
@@ -484,6 +501,46 @@ def r6_index_getter_agreement(idx, r):
         raise AnalysisError(f"only {n} getter-keyed nuclide tables found")
 
 
+def r7_destroy_resets_all(idx, r):
+    """The directory can be torn down and rebuilt (destroyGlobalNuclides(); factory()). Every registry that registration
+    fills - the by* tables, `instances`, and each element's `nuclides` list (filled by `element.append(self)`) - must be
+    emptied by the tear-down; a registry that survives keeps the OLD objects (Element.append skips an equal new one), so
+    lookups through it return nuclides that are not the live ones."""
+    NB = "armi.nucDirectory.nuclideBases"
+    m = idx.module(NB)
+    d = idx.func(NB + ".destroyGlobalNuclides")
+    if m is None or d is None:
+        raise AnchorMissing("nuclideBases.destroyGlobalNuclides")
+    filled = set()
+    for f in m.all_funcs():
+        for st in iter_stores(f.node):
+            if st.kind == "subscript" and isinstance(st.node, ast.Subscript) and isinstance(st.node.value, ast.Name) and st.node.value.id.startswith("by"):
+                filled.add(st.node.value.id)
+        for c in iter_calls(f.node):
+            if call_attr(c) == "append" and isinstance(c.func.value, ast.Name) and c.func.value.id == "instances":
+                filled.add("instances")
+            if call_attr(c) == "append" and isinstance(c.func.value, ast.Attribute) and c.func.value.attr == "element":
+                filled.add("element.nuclides")
+    cleared = set()
+    for n in walk_local(d.node):
+        if isinstance(n, ast.Call) and call_attr(n) == "clear" and isinstance(n.func.value, ast.Name):
+            cleared.add(n.func.value.id)
+        if isinstance(n, ast.Assign):
+            for t in n.targets:
+                if isinstance(t, ast.Name):
+                    cleared.add(t.id)
+                if isinstance(t, ast.Attribute) and t.attr == "nuclides":
+                    cleared.add("element.nuclides")
+        if isinstance(n, ast.Call) and call_attr(n) == "clear" and isinstance(n.func.value, ast.Attribute) and n.func.value.attr == "nuclides":
+            cleared.add("element.nuclides")
+    # aliases such as byMcc3Id = byMcc3IdEndfbVII1 are the same object
+    if len(filled) < 6:
+        raise AnalysisError(f"only {len(filled)} registries found: {sorted(filled)}")
+    for reg in sorted(filled):
+        r.require(reg in cleared, f"destroy-empties:{reg}", d,
+                  msg=f"registration fills `{reg}` but destroyGlobalNuclides does not empty it: after destroy + factory it still holds the previous generation of nuclide objects")
+
+
 def run(idx, chk):
     chk.explanation = (
         "C19: nuclides.dat, elements.dat, burn-chain.yaml and mcc-nuclides.yaml are parsed as data and linted exhaustively (unique (Z,A,S), N=A-Z, "
@@ -503,3 +560,5 @@ def run(idx, chk):
                  necessary="'finite positive density and finite expansion at every temperature in its stated range'")
     chk.run_rule("R19.6", "each lookup table byX is keyed by the identifier that getX() returns (also through aliases and delegating getters)", lambda r: r6_index_getter_agreement(idx, r), floor=3,
                  necessary="'every nuclide can be retrieved through each identifier it has, each lookup returns that same nuclide'")
+    chk.run_rule("R19.7", "tearing the directory down empties every registry that registration fills (tables, instances, the elements' nuclide lists)", lambda r: r7_destroy_resets_all(idx, r), floor=8,
+                 necessary="'each nuclide belongs to the element with its atomic number' and every lookup returns THAT nuclide, also after the directory was rebuilt")
